@@ -79,5 +79,6 @@ def main(tier):
     chk.run("R-SHAREDERR", P.sharederr, cx.repo, floor=60)
     chk.run("R-FOUNDLOC", P.foundloc, cx.repo, floor=5)
     chk.run("R-POWCAP", BR.powcap, cx.repo, floor=8)
+    chk.run("R-BOUNDORDER", BR.boundorder, cx.repo, floor=2)
     chk.run("R-ALIASATTR", SY.aliasattr, cx.repo, clauses=("attribute_clauses", "anonymous_own"), floor=3)
     return chk.finish()
